@@ -555,7 +555,7 @@ Definition chk_step_C11 : step_chk := fun prev x o ob =>
       | _ => rows_eqb (sn_rows prev) (sn_rows post) && strs_eqb (sn_colls prev) (sn_colls post)
       end
   | SPurge => strs_eqb (sn_colls prev) (sn_colls post)
-  | SDump _ _ | SQuery _ _ | SPutDDoc _ _ _ | SDelDDoc _ _ | SView _ _ _ _ => rows_eqb (sn_rows prev) (sn_rows post) && strs_eqb (sn_colls prev) (sn_colls post)
+  | SDump _ _ | SQuery _ _ | SPutDDoc _ _ _ | SDelDDoc _ _ | SView _ _ _ _ | SDraw _ _ _ _ => rows_eqb (sn_rows prev) (sn_rows post) && strs_eqb (sn_colls prev) (sn_colls post)
   | SExpire | SReopen => strs_eqb (sn_colls prev) (sn_colls post)
   end.
 
